@@ -20,7 +20,14 @@ func main() {
 		fmt.Println("SYM-ERROR unknown harness", name)
 		os.Exit(3)
 	}
+	defer func() {
+		if r := recover(); r != nil {
+			sym.CheckAlloc()
+			panic(r)
+		}
+	}()
 	f()
+	sym.CheckAlloc()
 	sym.CheckFrozen()
 	fmt.Println("SYM-PASSED", name)
 }
